@@ -72,3 +72,19 @@ func ruleLimit(e *Env, ruleName string, pkgs ...string) {
 		})
 	}
 }
+
+// parseErrorType names the typed parse error of each value package.
+var parseErrorType = map[string]string{"date": "ParseError", "roman": "NumberFormatError", "sem": "ParseError", "size": "ParseError", "uu": "ParseError"}
+
+// ruleTyped instantiates S-WRAP(ii) for the parser entry points of the given packages under ruleName.
+func ruleTyped(e *Env, ruleName string, pkgs ...string) {
+	for _, pkg := range pkgs {
+		for _, n := range parserEntries[pkg] {
+			f := e.Fn(ruleName, pkg, n)
+			if f == nil {
+				continue
+			}
+			e.Flow(func(c *flow.Ctx) { c.RuleTypedErrors(ruleName, f, parseErrorType[pkg]) })
+		}
+	}
+}
